@@ -7,14 +7,18 @@ lines = ["### 9.4 Sensitivity: which checks catch which changes", "",
          "Produced by `./tools_mutants.py matrix --tests` (quick tier, VERIF_SEED=1, regression replays off;",
          "each patch applied to a scratch copy of `/repo/d42`, the repository's own suite run against the same copy).",
          "`suite` = does the unedited test suite still pass with the change. Reverts of the fix commits restore a",
-         "genuine defect; `seeded/*` are the sub-agents' changes (A,B first round; C,D second round); `own-*` are",
+         "genuine defect; `seeded/*` are the sub-agents' changes (A,B first round; C,D second; E,F third; G,H fourth); `own-*` are",
          "hand-written must-kill mutants.", "",
          "| change | suite | caught by (first violation key) | not caught by |", "|---|---|---|---|"]
 n_kill = n_all = 0
 for r in rows:
     name = r["patch"].replace("mutants/", "").replace("/patch.diff", "").replace(".diff", "")
     if not r.get("applied"):
-        lines.append(f"| {name} | - | PATCH DID NOT APPLY | |")
+        meta = os.path.join(HERE, os.path.dirname(r["patch"]), "meta.json")
+        note = "PATCH DID NOT APPLY"
+        if os.path.exists(meta) and json.load(open(meta)).get("obsolete_after"):
+            note = "n/a - rewrites code that fix " + json.load(open(meta))["obsolete_after"] + " changed (see 9.3e)"
+        lines.append(f"| {name} | - | {note} | |")
         continue
     caught, missed = [], []
     for pid, c in r["checks"].items():
